@@ -64,10 +64,11 @@ def render(st, n, opts=None):
     skip_empty = opts.get("skip_empty", False)
 
     def ident(name):
-        return ("id_" + name) if rename else name
+        legal = re.sub(r"[^A-Za-z0-9_]", "_", name)       # q[1] -> q_1_
+        return ("id_" + legal) if rename else legal
 
     def decl(name):
-        return '(rename %s "%s")' % (ident(name), name) if rename else name
+        return '(rename %s "%s")' % (ident(name), name) if (rename or ident(name) != name) else name
 
     def ref(name):
         s = ident(name)
@@ -200,6 +201,18 @@ def _name(x):
     return x, x
 
 
+def _typed(v):
+    """a typed property value (string "x") / (integer 3) / (boolean (true)) in the notation of harness._val"""
+    kw = _kw(v)
+    if kw == "integer":
+        return "<int>%d" % int(v[1])
+    if kw == "boolean":
+        return "<bool>%s" % (_kw(v[1]) == "true")
+    if kw == "number":
+        return "<number>%s" % (v[1],)
+    return v[1].strip('"') if isinstance(v[1], str) else str(v[1])
+
+
 def _find(lst, kw):
     return [x for x in lst if _kw(x) == kw]
 
@@ -229,11 +242,9 @@ def read_canon(text):
                     if isinstance(nd, list) and _kw(nd) == "array":
                         pid, pname = _name(nd[1])
                         width = int(nd[2])
-                        m = re.match(r"(.*)\[(\d+):(\d+)\]$", pname)
-                        lower = 0
-                        if m:
-                            pname, lower = m.group(1), min(int(m.group(2)), int(m.group(3)))
-                        rec = {"name": pname, "dir": direction, "width": width, "array": True, "lower": lower}
+                        # the original name is kept verbatim (a "[h:l]" suffix is part of the name; EDIF port
+                        # arrays have no base index)
+                        rec = {"name": pname, "dir": direction, "width": width, "array": True, "lower": 0}
                     else:
                         pid, pname = _name(nd)
                         rec = {"name": pname, "dir": direction, "width": 1, "array": False, "lower": 0}
@@ -247,7 +258,7 @@ def read_canon(text):
                     cr = _find(vr, "cellref")[0]
                     lr = _find(cr, "libraryref")
                     rl = lr[0][1].lower() if lr else lid.lower()
-                    props = [(pp[1] if isinstance(pp[1], str) else pp[1][1], pp[2][1].strip('"'))
+                    props = [(pp[1] if isinstance(pp[1], str) else pp[1][1], _typed(pp[2]))
                              for pp in _find(ins, "property")]
                     ptok = ""
                     if props:
@@ -257,6 +268,14 @@ def read_canon(text):
                     rec = {"name": iname, "ref_id": (rl, cr[1].lower()), "props": ptok}
                     inst_by_id[iid.lower()] = rec
                     insts.append(rec)
+                # a scalar net whose identifier / name equals the bus part of bit nets keeps those bit nets from
+                # being merged (an array cable of that identifier could not coexist with it)
+                scalar_ids, scalar_names = set(), set()
+                for net in _find(con, "net"):
+                    nid, nname = _name(net[1])
+                    if not (re.match(r"(.*)\[(\d+)\]$", nname) and re.match(r"(.*)_(\d+)_$", nid)):
+                        scalar_ids.add(nid.lower())
+                        scalar_names.add(nname)
                 for net in _find(con, "net"):
                     nid, nname = _name(net[1])
                     eps = []
@@ -272,11 +291,12 @@ def read_canon(text):
                             eps.append({"inst_id": ir[0][1].lower() if ir else "", "port_id": pid.lower(), "bit": bit})
                     m = re.match(r"(.*)\[(\d+)\]$", nname)
                     m2 = re.match(r"(.*)_(\d+)_$", nid)
-                    if m and m2:
+                    if m and m2 and m.group(1) not in scalar_names and m2.group(1).lower() not in scalar_ids:
                         base, idx = m.group(1), int(m.group(2))
-                        nets.setdefault(base, {"array": True, "bits": {}})["bits"][idx] = eps
+                        # two nets that claim the same bit of the same bus are one net (their pins are joined)
+                        nets.setdefault(base, {"array": True, "bits": {}})["bits"].setdefault(idx, []).extend(eps)
                     else:
-                        nets.setdefault(nname, {"array": False, "bits": {}})["bits"][0] = eps
+                        nets.setdefault(nname, {"array": False, "bits": {}})["bits"].setdefault(0, []).extend(eps)
             cells.append({"name": cname, "ports": ports, "insts": insts, "inst_by_id": inst_by_id,
                           "port_by_id": port_by_id, "nets": nets, "lib": lid.lower(), "id": cid.lower()})
         libs.append({"name": lname, "cells": cells, "id": lid.lower()})
